@@ -59,14 +59,18 @@ fn build_fns(w: u16) -> Vec<FnDef> {
 
 pub fn run(rep: &Report) -> i32 {
     let quick = rep.is_quick();
-    let widths: Vec<u16> = if quick { vec![1, 2, 4, 8] } else { vec![1, 2, 4, 8, 16] };
-    rep.set("bounds", json!({"counter_widths": widths, "exit_iterations": "every i in 0..2^W-1, and never", "flags": "exit enabled x panic-after-exit x accumulator offset {0, 2^16}"}));
+    // width 16: quick runs only the edge exits (0, 1, 2^16-2, 2^16-1, never); thorough every exit iteration
+    let widths: Vec<u16> = vec![1, 2, 4, 8, 16];
+    rep.set("bounds", json!({"counter_widths": widths, "width_16": if quick {"edge exit iterations only"} else {"every exit iteration"}, "exit_iterations": "every i in 0..2^W-1, and never", "flags": "exit enabled x panic-after-exit x accumulator offset {0, 2^16}"}));
     // jobs: (width, x, enabled, panic_after, offset)
     let mut jobs: Vec<(u16, u32, bool, bool, u32)> = vec![];
     for &w in &widths {
         let n = 1u32 << w;
         for x in 0..n {
             for (en, pn) in [(true, false), (true, true), (false, false)] {
+                if w == 16 && quick && !(x < 2 || x + 2 >= n) {
+                    continue;
+                }
                 if w == 16 && (pn || (!en && x != 0)) {
                     // width 16: every exit iteration with the plain body; panic-after / never variants at the edges only
                     if !(x < 2 || x + 2 >= n) {
